@@ -141,7 +141,65 @@ func sprayGateAt(point int) {
 	}
 }
 
-func sprayNodeEID(n int) string { return fmt.Sprintf("dtn://p%d/", n) }
+// Naming of the numbered nodes 1..7.  Naming 0 is the plain one (dtn://p<n>/).  The others give distinct
+// nodes endpoint IDs that nearly collide: the same authority / number under the other URI scheme
+// (dtn://23/ and ipn:23.x), names that differ only in letter case, names that are prefixes of each
+// other.  Node identity stays the node number: the model and the checkers do not know about names, so a
+// Core that mistakes one of these nodes for another one (direct delivery to a peer that is not the
+// destination, a sent-list entry that hits the wrong peer) shows as a transmission / metadata of the
+// wrong node.  Node 7 is never a peer in the random histories; its twin is node 6.
+type sprayOpt struct {
+	naming int
+	mule   bool // routing "sensor-mule" around the spray algorithm; sensors = the nodes 1, 3, 5
+}
+
+const sprayNamings = 4
+
+// sprayMuleRegex: with naming 0 the nodes 1, 3 and 5 are sensors
+const sprayMuleRegex = "^dtn://p[135]/"
+
+var sprayNameTab = [sprayNamings][8][2]string{
+	{}, // naming 0: computed
+	{{}, {"dtn://23/", "dtn://23/app"}, {"ipn:23.1", "ipn:23.1"}, {"dtn://5/", "dtn://5/app"}, {"ipn:5.1", "ipn:5.7"},
+		{"dtn://p5/", "dtn://p5/app"}, {"dtn://9/", "dtn://9/app"}, {"ipn:9.1", "ipn:9.2"}},
+	{{}, {"dtn://relay/", "dtn://relay/app"}, {"dtn://Relay/", "dtn://Relay/app"}, {"dtn://n1/", "dtn://n1/app"}, {"dtn://n10/", "dtn://n10/app"},
+		{"dtn://a/", "dtn://a/app"}, {"dtn://rELAY/", "dtn://rELAY/app"}, {"dtn://RELAY/", "dtn://RELAY/app"}},
+	{{}, {"ipn:23.1", "ipn:23.4"}, {"dtn://23/", "dtn://23/app"}, {"dtn://Ab/", "dtn://Ab/app"}, {"dtn://ab/", "dtn://ab/app"},
+		{"dtn://a.b/", "dtn://a.b/app"}, {"ipn:2.1", "ipn:2.3"}, {"dtn://2/", "dtn://2/3"}},
+}
+
+var sprayNaming int // naming of the history that is running
+
+func sprayNodeEID(n int) string {
+	if sprayNaming > 0 && n >= 1 && n <= 7 {
+		return sprayNameTab[sprayNaming][n][0]
+	}
+	return fmt.Sprintf("dtn://p%d/", n)
+}
+
+func sprayDstEID(n int) string {
+	if sprayNaming > 0 && n >= 1 && n <= 7 {
+		return sprayNameTab[sprayNaming][n][1]
+	}
+	return fmt.Sprintf("dtn://p%d/app", n)
+}
+
+// sprayNodeOf: the node number of a node endpoint ID (exact match), -1 = none of the numbered nodes
+func sprayNodeOf(s string) int {
+	if sprayNaming > 0 {
+		for n := 1; n <= 7; n++ {
+			if sprayNameTab[sprayNaming][n][0] == s {
+				return n
+			}
+		}
+		return -1
+	}
+	var k int
+	if _, err := fmt.Sscanf(s, "dtn://p%d/", &k); err != nil || s != fmt.Sprintf("dtn://p%d/", k) {
+		return -1
+	}
+	return k
+}
 
 func (e sprayEv) sexp() S {
 	if e.gc > 0 {
@@ -230,16 +288,28 @@ func sprayWork() func() {
 
 // sprayRun executes one history on the (pooled) Core of its algorithm and budget and returns the case fields.
 func sprayRun(binary bool, mult uint64, syncMode bool, nb int, evs []sprayEv) []S {
+	return sprayRunOpt(sprayOpt{}, binary, mult, syncMode, nb, evs)
+}
+
+func sprayRunOpt(opt sprayOpt, binary bool, mult uint64, syncMode bool, nb int, evs []sprayEv) []S {
 	algo := "spray"
 	if binary {
 		algo = "binary_spray"
 	}
+	sprayNaming = opt.naming
+	defer func() { sprayNaming = 0 }()
 	// one Core per (algorithm, L), reused by all histories (bundles are independent of each other; every
 	// history ends with all senders unregistered and its bundles deleted from the store and GC'ed)
-	key := fmt.Sprintf("%s/%d", algo, mult)
+	key := fmt.Sprintf("%s/%d/%v", algo, mult, opt.mule)
 	n := sprayPool[key]
 	if n == nil {
-		n = NewNode("dtn://n0/", routing.RoutingConf{Algorithm: algo, SprayConf: routing.SprayConfig{Multiplicity: mult}})
+		conf := routing.RoutingConf{Algorithm: algo, SprayConf: routing.SprayConfig{Multiplicity: mult}}
+		if opt.mule {
+			inner := conf
+			conf = routing.RoutingConf{Algorithm: "sensor-mule", SensorMuleConf: routing.SensorNetworkMuleConfig{
+				Algorithm: &inner, SensorNodeRegex: sprayMuleRegex}}
+		}
+		n = NewNode("dtn://n0/", conf)
 		n.Core.VerifSprayStopGC() // the algorithm's own 60 s GC cron would remove metadata behind the harness's back
 		sprayPool[key] = n
 	}
@@ -253,7 +323,7 @@ func sprayRun(binary bool, mult uint64, syncMode bool, nb int, evs []sprayEv) []
 			_ = n.Core.VerifStore().Delete(id)
 		}
 		sprayCreatedIDs = sprayCreatedIDs[:0]
-		n.Core.VerifSprayGC()
+		n.Core.VerifSprayGCInner()
 	}()
 	ids := make([]bpv7.BundleID, nb)
 	idStr := map[string]int{}
@@ -297,7 +367,7 @@ func sprayRun(binary bool, mult uint64, syncMode bool, nb int, evs []sprayEv) []
 			if e.prev >= 0 {
 				blocks = append(blocks, bpv7.NewCanonicalBlock(0, 0, bpv7.NewPreviousNodeBlock(MustEID(sprayNodeEID(e.prev)))))
 			}
-			b := MkBundle(BOpt{Src: src, Dst: fmt.Sprintf("dtn://p%d/app", e.dst), TS: tsOf[e.b], Life: 6 * 3600 * 1000,
+			b := MkBundle(BOpt{Src: src, Dst: sprayDstEID(e.dst), TS: tsOf[e.b], Life: 6 * 3600 * 1000,
 				Payload: []byte(fmt.Sprintf("spray-%d", e.b)), Blocks: blocks, CRC: bpv7.CRC32})
 			if again && b.ID() != ids[e.b] {
 				panic("spray: a bundle received again must be the bundle created before")
@@ -354,7 +424,7 @@ func sprayRun(binary bool, mult uint64, syncMode bool, nb int, evs []sprayEv) []
 		case seTick:
 			n.TickPending()
 		case seGC:
-			n.Core.VerifSprayGC()
+			n.Core.VerifSprayGCInner()
 		}
 		evS := e.sexp()
 		if gate != nil {
@@ -420,12 +490,12 @@ func sprayRun(binary bool, mult uint64, syncMode bool, nb int, evs []sprayEv) []
 			meta := L()
 			stored := false
 			if created[bi] {
-				if rem, sent, ok := n.Core.VerifSprayMeta(ids[bi]); ok {
+				if rem, sent, ok := n.Core.VerifSprayMetaInner(ids[bi]); ok {
 					var ns []int
 					for _, e := range sent {
-						var k int
 						s := e.String()
-						if _, err := fmt.Sscanf(s, "dtn://p%d/", &k); err != nil {
+						k := sprayNodeOf(s)
+						if k < 0 {
 							k = 1000 // a node that is not one of the numbered peers (dtn://s8/)
 							if strings.HasPrefix(s, "dtn://s") {
 								fmt.Sscanf(s, "dtn://s%d/", &k)
@@ -446,6 +516,9 @@ func sprayRun(binary bool, mult uint64, syncMode bool, nb int, evs []sprayEv) []
 			obs = append(obs, L(LL(per[bi]), meta, B(stored)))
 		}
 		evOut = append(evOut, L(evS, LL(obs)))
+	}
+	if opt != (sprayOpt{}) {
+		return []S{B(binary), U(mult), B(syncMode), I(nb), LL(evOut), L(I(opt.naming), B(opt.mule))}
 	}
 	return []S{B(binary), U(mult), B(syncMode), I(nb), LL(evOut)}
 }
@@ -679,7 +752,12 @@ func sprayReplay(o *Out) bool {
 		for _, e := range l[7].(sList) {
 			evs = append(evs, sprayParseEv(e.(sList)[0]))
 		}
-		o.Case("hist", sprayRun(atomI(l[3]) != 0, atomU(l[4]), atomI(l[5]) != 0, atomI(l[6]), evs)...)
+		var opt sprayOpt
+		if len(l) > 8 {
+			ol := l[8].(sList)
+			opt = sprayOpt{naming: atomI(ol[0]), mule: atomI(ol[1]) != 0}
+		}
+		o.Case("hist", sprayRunOpt(opt, atomI(l[3]) != 0, atomU(l[4]), atomI(l[5]) != 0, atomI(l[6]), evs)...)
 	}
 	return true
 }
